@@ -190,7 +190,16 @@ func (p *Program) resolve(v ssa.Value) ssa.Value {
 				return v
 			}
 			ci := p.cellOf(x.X)
-			if ci == nil || ci.escapes || ci.partial || len(ci.stores) != 1 {
+			if ci == nil || ci.escapes || ci.partial {
+				return v
+			}
+			if len(ci.stores) != 1 {
+				// a variable assigned more than once that became a cell only because a function literal invoked on the spot
+				// reads it: the store that reaches this load
+				if rv := p.reachingStore(ci, x); rv != nil {
+					v = rv
+					continue
+				}
 				return v
 			}
 			v = ci.stores[0].Val
@@ -1029,6 +1038,9 @@ func (p *Program) relOf(g guard) rel {
 			// canonical orientation: a constant operand goes to the right (0 < len(x) reads len(x) > 0)
 			if isConstRendering(x) && !isConstRendering(y) {
 				x, y, op = y, x, flipOp[op]
+				p.noteEnum(b.Y, x)
+			} else if isConstRendering(y) {
+				p.noteEnum(b.X, x)
 			}
 			return rel{x, op, y}
 		}
@@ -1051,6 +1063,9 @@ func (p *Program) facts(in ssa.Instruction) []rel {
 // holds reports whether the relation x op y is implied by one of the facts (syntactically, with
 // operand flipping and the weakenings < ⇒ <=, < ⇒ !=, == ⇒ <=, == ⇒ >=).
 func holds(facts []rel, x, op, y string) bool {
+	if activeProg != nil && len(activeProg.enums) > 0 {
+		facts = activeProg.withEnumFacts(facts)
+	}
 	for _, f := range facts {
 		for _, c := range []rel{f, {f.Y, flipOp[f.Op], f.X}} {
 			if c.X != x || c.Y != y {
@@ -1985,4 +2000,217 @@ func (p *Program) evalWith(v ssa.Value, f func(ssa.Value) (int64, bool), depth i
 		}
 	}
 	return 0, false
+}
+
+// reachingStore: the value a load of a multi-store cell sees, when it is decidable: every store is in the function
+// that owns the cell, the load is there too or inside a literal invoked on the spot (located by its call), one store
+// dominates the load and no other store can run between the two.
+func (p *Program) reachingStore(ci *cellInfo, ld *ssa.UnOp) ssa.Value {
+	owner := ci.alloc.Parent()
+	if owner == nil || len(ci.stores) == 0 || len(ci.stores) > 8 {
+		return nil
+	}
+	for _, st := range ci.stores {
+		if st.Parent() != owner {
+			return nil
+		}
+	}
+	var at ssa.Instruction = ld
+	if ld.Parent() != owner {
+		if !p.transparent(ld.Parent()) {
+			return nil
+		}
+		at = p.liftTo(ld, owner)
+		if at == nil {
+			return nil
+		}
+	} else {
+		// only cells that exist because of such a literal: plain locals never reach this point (they are SSA values)
+		captured := false
+		if refs := ci.alloc.Referrers(); refs != nil {
+			for _, r := range *refs {
+				if mc, ok := r.(*ssa.MakeClosure); ok && immediatelyInvoked(mc) {
+					captured = true
+				}
+			}
+		}
+		if !captured {
+			return nil
+		}
+	}
+	var last *ssa.Store
+	for _, st := range ci.stores {
+		if ssa.Instruction(st) == at || !dominates(st, at) {
+			continue
+		}
+		if last == nil || dominates(last, st) {
+			last = st
+		}
+	}
+	if last == nil {
+		return nil
+	}
+	for _, st := range ci.stores {
+		if st != last && reachable(last, st, nil) && reachable(st, at, nil) {
+			return nil
+		}
+	}
+	if l2, isLoad := last.Val.(*ssa.UnOp); isLoad && l2.Op == token.MUL && l2.X == ssa.Value(ci.alloc) {
+		return nil
+	}
+	return last.Val
+}
+
+// Enum-valued classification helpers: `switch verdictOf(err) { case passed: … case invalid: … }` with
+// `func verdictOf(err *testError) caseVerdict { if err == nil { return passed }; if err.isInvalidData() { return invalid }; return failed }`.
+// A branch fact "verdictOf(e) == K" then stands for the guards under which the helper returns K, and the facts
+// "verdictOf(e) != K" for all but one K for the guards of the remaining return. noteEnum records, for a compared value
+// that is the result of an inlined helper all of whose returns are constants, the constant and guard facts of every
+// return; withEnumFacts adds the implied facts.
+type enumAlt struct {
+	k      string
+	facts  []rel
+	guards []guard // the same as SSA guards (of the helper's return), for value-identity tests
+}
+
+func (p *Program) noteEnum(v ssa.Value, rendered string) {
+	if p.enums == nil {
+		p.enums = map[string][]enumAlt{}
+	}
+	if _, done := p.enums[rendered]; done || p.inNoteEnum {
+		return
+	}
+	c, ok := p.resolve(v).(*ssa.Call)
+	if !ok {
+		return
+	}
+	sc := c.Common().StaticCallee()
+	if sc == nil || !p.transparent(sc) || sc.Signature.Results().Len() != 1 {
+		return
+	}
+	p.inNoteEnum = true
+	defer func() { p.inNoteEnum = false }()
+	alts := p.alternatives(c, 0)
+	if len(alts) < 2 || len(alts) > 8 {
+		return
+	}
+	var out []enumAlt
+	seen := map[string]bool{}
+	for _, a := range alts {
+		k, isK := p.resolve(a.Val).(*ssa.Const)
+		if !isK {
+			return
+		}
+		ks := p.expr(k)
+		if seen[ks] {
+			return // two returns of one constant: the fact would be a disjunction
+		}
+		seen[ks] = true
+		ea := enumAlt{k: ks, facts: a.Facts}
+		if ret, isRet := a.Pos.(*ssa.Return); isRet {
+			ea.guards = guardsOf(ret.Block())
+		}
+		out = append(out, ea)
+	}
+	p.enums[rendered] = out
+}
+
+func (p *Program) withEnumFacts(facts []rel) []rel {
+	var extra []rel
+	excluded := map[string]map[string]bool{}
+	for _, f := range facts {
+		alts, ok := p.enums[f.X]
+		if !ok {
+			continue
+		}
+		switch f.Op {
+		case "==":
+			for _, a := range alts {
+				if a.k == f.Y {
+					extra = append(extra, a.facts...)
+				}
+			}
+		case "!=":
+			if excluded[f.X] == nil {
+				excluded[f.X] = map[string]bool{}
+			}
+			excluded[f.X][f.Y] = true
+		}
+	}
+	for x, ex := range excluded {
+		var rest []enumAlt
+		for _, a := range p.enums[x] {
+			if !ex[a.k] {
+				rest = append(rest, a)
+			}
+		}
+		if len(rest) == 1 {
+			extra = append(extra, rest[0].facts...)
+		}
+	}
+	if len(extra) == 0 {
+		return facts
+	}
+	return append(append([]rel{}, facts...), extra...)
+}
+
+// enumSelection: which returns of enum-valued helpers the facts select (one alternative per compared value, when
+// decided), and whether some compared value has no alternative left (the edge is infeasible: a switch over all
+// constants of the enum without default).
+func (p *Program) enumSelection(facts []rel) (selected []enumAlt, infeasible bool) {
+	if len(p.enums) == 0 {
+		return nil, false
+	}
+	excluded := map[string]map[string]bool{}
+	for _, f := range facts {
+		alts, ok := p.enums[f.X]
+		if !ok {
+			continue
+		}
+		switch f.Op {
+		case "==":
+			for _, a := range alts {
+				if a.k == f.Y {
+					selected = append(selected, a)
+				}
+			}
+		case "!=":
+			if excluded[f.X] == nil {
+				excluded[f.X] = map[string]bool{}
+			}
+			excluded[f.X][f.Y] = true
+		}
+	}
+	for x, ex := range excluded {
+		var rest []enumAlt
+		for _, a := range p.enums[x] {
+			if !ex[a.k] {
+				rest = append(rest, a)
+			}
+		}
+		switch len(rest) {
+		case 0:
+			infeasible = true
+		case 1:
+			selected = append(selected, rest[0])
+		}
+	}
+	return selected, infeasible
+}
+
+// enumGuards: the guards implied for block b by comparisons of enum-valued helper results among its guards.
+func (p *Program) enumGuards(b *ssa.BasicBlock) []guard {
+	if len(p.enums) == 0 {
+		return nil
+	}
+	var facts []rel
+	for _, g := range guardsOf(b) {
+		facts = append(facts, p.relOf(g))
+	}
+	sel, _ := p.enumSelection(facts)
+	var out []guard
+	for _, a := range sel {
+		out = append(out, a.guards...)
+	}
+	return out
 }
